@@ -156,3 +156,129 @@ Proof.
   destruct (resolve_vars (S (val_depth e)) [start] e) as [[v sc]|] eqn:E; [|discriminate]. injection H as ->.
   rewrite (resolve_vars_idem _ _ _ _ _ E). reflexivity.
 Qed.
+
+(** * resolution only annotates: erasing the distances from the resolved form gives the original form with its
+      distances erased — the resolved program IS the program, with hints.  (define keeps exactly its first two
+      operands, as in the code; [binary_defines] says no define has more.) *)
+Fixpoint erase (e : val) : val :=
+  match e with
+  | VSym n _ => VSym n None
+  | VList w l => VList w (map erase l)
+  | VUnq x => VUnq (erase x)
+  | VUnqS x => VUnqS (erase x)
+  | _ => e
+  end.
+
+Fixpoint binary_defines (e : val) : bool :=
+  match e with
+  | VList _ l =>
+      match l with
+      | VOp ODefine :: rest => Nat.leb (List.length rest) 2
+      | _ => true
+      end && forallb binary_defines l
+  | _ => true
+  end.
+
+Section ListErase.
+  Variable rv : list (list string) -> val -> rres (val * list (list string)).
+  Lemma resolve_list_erase : forall l sc l' sc',
+    (forall x, In x l -> binary_defines x = true -> forall sc0 x' sc1, rv sc0 x = RsOk (x', sc1) -> erase x' = erase x) ->
+    forallb binary_defines l = true ->
+    resolve_list rv sc l = RsOk (l', sc') -> map erase l' = map erase l.
+  Proof.
+    induction l as [|x r IH]; cbn [resolve_list]; intros sc l' sc' Hrv Hb H.
+    - injection H as <- <-. reflexivity.
+    - cbn [forallb] in Hb. apply andb_prop in Hb as [Hx Hr].
+      destruct (rv sc x) as [[x' sc1]|] eqn:Ex; [|discriminate].
+      destruct (resolve_list rv sc1 r) as [[r' sc2]|] eqn:Er; [|discriminate].
+      injection H as <- <-. cbn [map]. rewrite (Hrv x (or_introl eq_refl) Hx _ _ _ Ex).
+      rewrite (IH _ _ _ (fun y Hy => Hrv y (or_intror Hy)) Hr Er). reflexivity.
+  Qed.
+End ListErase.
+
+Lemma case_go_erase f :
+  (forall sc x x' sc', binary_defines x = true -> resolve_vars f sc x = RsOk (x', sc') -> erase x' = erase x) ->
+  forall cs sc cs' sc', forallb binary_defines cs = true -> case_go f sc cs = RsOk (cs', sc') -> map erase cs' = map erase cs.
+Proof.
+  intros IH. induction cs as [|c r IHr]; intros sc cs' sc' Hb H.
+  - injection H as <- <-. reflexivity.
+  - cbn [forallb] in Hb. apply andb_prop in Hb as [Hc Hr]. cbn [case_go] in H.
+    destruct c as [| | | | | | |w l| | | | |];
+      try (destruct (case_go f sc r) as [[r' sc3]|] eqn:Er; [|discriminate]; injection H as <- <-;
+           cbn [map]; rewrite (IHr _ _ _ Hr Er); reflexivity).
+    destruct w; [destruct l as [|k body]|];
+      try (destruct (case_go f sc r) as [[r' sc3]|] eqn:Er; [|discriminate]; injection H as <- <-;
+           cbn [map]; rewrite (IHr _ _ _ Hr Er); reflexivity).
+    destruct (resolve_list (resolve_vars f) sc body) as [[body' sc2]|] eqn:Eb; [|discriminate].
+    destruct (case_go f sc2 r) as [[r' sc3]|] eqn:Er; [|discriminate]. injection H as <- <-.
+    cbn [binary_defines] in Hc. apply andb_prop in Hc as [_ Hc]. cbn [forallb] in Hc. apply andb_prop in Hc as [_ Hbody].
+    cbn [map]. rewrite (IHr _ _ _ Hr Er). unfold WL. cbn [erase map]. do 3 f_equal.
+    apply (resolve_list_erase (resolve_vars f) body sc body' sc2); [|exact Hbody|exact Eb].
+    intros x _ Hx sc0 x' sc1 Ex. apply (IH _ _ _ _ Hx Ex).
+Qed.
+
+Ltac dflt H Hdefault :=
+  match type of H with
+  | match resolve_list ?a ?b ?c with _ => _ end = _ =>
+      let l' := fresh "l'" in let sc1 := fresh "sc1" in let E := fresh "E" in
+      destruct (resolve_list a b c) as [[l' sc1]|] eqn:E; [|discriminate];
+      injection H as <- <-; apply (Hdefault _ _ eq_refl)
+  end.
+
+Theorem resolve_vars_erase f : forall sc e e' sc',
+  binary_defines e = true -> resolve_vars f sc e = RsOk (e', sc') -> erase e' = erase e.
+Proof.
+  induction f as [|f IH]; intros sc e e' sc' Hb H; [discriminate|].
+  destruct e; cbn [resolve_vars] in H; try (injection H as <- <-; reflexivity).
+  - destruct (scope_steps sc n 0); injection H as <- <-; reflexivity.
+  - destruct w; [|injection H as <- <-; reflexivity].
+    destruct l as [|h rest]; [injection H as <- <-; reflexivity|].
+    cbn [binary_defines] in Hb. apply andb_prop in Hb as [Hdef Hch].
+    assert (Hdefault : forall l' sc1, resolve_list (resolve_vars f) sc (h :: rest) = RsOk (l', sc1) ->
+                                      erase (WL l') = erase (VList true (h :: rest))).
+    { intros l' sc1 E. unfold WL. cbn [erase]. f_equal.
+      apply (resolve_list_erase (resolve_vars f) (h :: rest) sc l' sc1); [|exact Hch|exact E].
+      intros x _ Hx sc0 x' sc2 Ex. apply (IH _ _ _ _ Hx Ex). }
+    assert (Htail : forall body body' sc0 sc1, forallb binary_defines body = true ->
+              resolve_list (resolve_vars f) sc0 body = RsOk (body', sc1) -> map erase body' = map erase body).
+    { intros body body' sc0 sc1 Hbd E. apply (resolve_list_erase (resolve_vars f) body sc0 body' sc1); [|exact Hbd|exact E].
+      intros x _ Hx sc2 x' sc3 Ex. apply (IH _ _ _ _ Hx Ex). }
+    cbn [forallb] in Hch. apply andb_prop in Hch as [Hh Hrest].
+    destruct h as [| | | | | |o| | | | | |];
+      [dflt H Hdefault|dflt H Hdefault|dflt H Hdefault|dflt H Hdefault|dflt H Hdefault|dflt H Hdefault| |
+       dflt H Hdefault|dflt H Hdefault|dflt H Hdefault|dflt H Hdefault|dflt H Hdefault|dflt H Hdefault].
+    destruct o; try (dflt H Hdefault).
+    all: try (injection H as <- <-; reflexivity).
+    + (* define *)
+      destruct rest as [|id [|body [|extra more]]]; try discriminate.
+      * inv_res H.
+      * inv_res H. injection H as <- <-. unfold WL. cbn [erase map]. do 3 f_equal.
+        cbn [forallb] in Hrest. apply andb_prop in Hrest as [_ Hrest]. apply andb_prop in Hrest as [Hbody _].
+        match goal with X : resolve_vars f _ body = RsOk _ |- _ => rewrite (IH _ _ _ _ Hbody X) end. reflexivity.
+    + (* let *)
+      inv_res H. injection H as <- <-. unfold WL. cbn [erase map]. do 3 f_equal.
+      cbn [forallb] in Hrest. apply andb_prop in Hrest as [_ Hbody].
+      match goal with X : resolve_list _ _ _ = RsOk _ |- _ => apply (Htail _ _ _ _ Hbody X) end.
+    + (* case *)
+      assert (H' : resolve_vars (S f) sc (VList true (VOp OCase :: rest)) = RsOk (e', sc')) by exact H. clear H.
+      destruct rest as [|kf clauses]; [injection H' as <- <-; reflexivity|].
+      rewrite case_unfold in H'. destruct (resolve_vars f sc kf) as [[kf' sc1]|] eqn:Ek; [|discriminate].
+      destruct (case_go f sc1 clauses) as [[cs' sc2]|] eqn:Ec; [|discriminate]. injection H' as <- <-.
+      cbn [forallb] in Hrest. apply andb_prop in Hrest as [Hkf Hcl].
+      unfold WL. cbn [erase map]. rewrite (IH _ _ _ _ Hkf Ek). do 3 f_equal.
+      apply (case_go_erase f (fun sc0 x x' sc3 Hx Ex => IH sc0 x x' sc3 Hx Ex) clauses sc1 cs' sc2 Hcl Ec).
+    + (* defmacro *)
+      destruct rest as [|id r]; [discriminate|]. destruct (sym_name id); [|discriminate]. injection H as <- <-. reflexivity.
+    + (* fn *)
+      destruct rest as [|params body]; [discriminate|].
+      match type of H with match ?X with _ => _ end = _ => destruct X as [names|] eqn:En; [|discriminate] end.
+      destruct (resolve_list (resolve_vars f) (names :: sc) body) as [[body' sc1]|] eqn:Eb; [|discriminate].
+      injection H as <- <-. unfold WL. cbn [erase map]. do 3 f_equal.
+      cbn [forallb] in Hrest. apply andb_prop in Hrest as [_ Hbody]. apply (Htail _ _ _ _ Hbody Eb).
+Qed.
+
+Corollary resolve_erase start e e' : binary_defines e = true -> resolve start e = RsOk e' -> erase e' = erase e.
+Proof.
+  unfold resolve. intros Hb H. destruct (resolve_vars (S (val_depth e)) [start] e) as [[v sc]|] eqn:E; [|discriminate].
+  injection H as <-. apply (resolve_vars_erase _ _ _ _ _ Hb E).
+Qed.
